@@ -522,7 +522,9 @@ def run(ck):
         # predecessors are redirected only through empty blocks, and all `br` predecessors are recorded
         inc = [n for n in walk(fc['body']) if n.get('k') == 'MCall' and n.get('m') == 'push' and 'incoming' in pp(n['recv'])]
         okp = len(inc) == 1 and 'Terminator::Br' in pp(next(a for a in H.ancestors(fc, inc[0]) if a.get('k') == 'Arm')['pat'])
-        ext = [c for c in H.calls_in(fc['body']) if c.get('m') == 'extend' and 'to_visit' in pp(c['recv'])]
+        ploop = next((a for a in H.ancestors(fc, unr[0]) if a.get('k') == 'Loop'), None) if unr else None
+        wl = next((H.root_local(c['recv']) for c in H.calls_in(ploop) if c.get('m') == 'pop'), None) if ploop is not None else None
+        ext = [c for c in H.calls_in(fc['body']) if c.get('m') == 'extend' and wl is not None and (H.root_local(c['recv']) or {}).get('hid') == wl.get('hid')]
         oke = len(ext) == 1 and any(a.get('k') == 'If' and 'statements.is_empty()' in pp(a['c']) for a in H.ancestors(fc, ext[0]))
         ck.ob('R6.4', 'all-br-predecessors-redirected', okp and oke, L.loc(inc[0]) if inc else L.loc(fc['body']),
               'every `br` edge is recorded; an empty block hands the patch-up to all of its `br` predecessors, so nothing jumps to it afterwards')
